@@ -64,6 +64,7 @@ Inductive ekind :=
 | EW_DirNameInvalid | EW_AlreadyExists | EW_AccessDenied | EW_NotReparsePoint | EW_IncorrectFunc
 | EW_InvalidHandle | EW_NotSupported
 | EG_Closed | EG_Invalid | EG_EOF | EG_FileClosing | EG_NegativeOffset
+| EG_WriteAtInAppendMode     (* avfs.ErrWriteAtInAppendMode, returned unwrapped by WriteAt *)
 | EFuel.   (* model-only: the walk ran out of fuel; excluded by every theorem *)
 
 (* ---- nodes ------------------------------------------------------------- *)
